@@ -1,11 +1,16 @@
 package main
 
 import (
+	"bytes"
+	"context"
 	"encoding/json"
 	"fmt"
 	"os"
+	"sync"
 
 	"github.com/indexsupply/shovel/dig"
+	"github.com/indexsupply/shovel/eth"
+	"github.com/indexsupply/shovel/wpg"
 	"verif/harness/abi"
 	"verif/harness/lib"
 )
@@ -131,6 +136,11 @@ func scanCase(out *lib.Out, d *abi.Decl, vals []*abi.Val, datas [][]byte, garbag
 	if vals == nil {
 		return
 	}
+	if ok && indom && d.NCols > 0 {
+		if m := insertSample(d, vals, datas); m != "" {
+			ok, msg = false, m+" (type "+abi.TypeString(d.GoType)+")"
+		}
+	}
 	nontriv := d.NCols > 0 && (d.Root.Depth() > 0 || d.Root.Dynamic())
 	out.Add(lib.Case{
 		Coq:  fmt.Sprintf("CScan %s %s %s", abi.CoqEvent(d.Event), lib.CBool(indom), lib.CList(runs)),
@@ -138,6 +148,80 @@ func scanCase(out *lib.Out, d *abi.Decl, vals []*abi.Val, datas [][]byte, garbag
 }
 
 var maxData = 1200
+
+// insertSample pushes the same data as logs of the declared event through
+// Integration.Insert (recording wpg.Conn) and compares the number of rows, and
+// the cells of byte-string typed columns, with the values that were encoded.
+func insertSample(d *abi.Decl, vals []*abi.Val, datas [][]byte) string {
+	ig, err := dig.New("ig", d.Event, nil, wpg.Table{Name: "t"}, dig.Notification{}, "")
+	if err != nil {
+		return "dig.New: " + err.Error()
+	}
+	nidx := dig.VerifNumIndexed(d.Event)
+	var logs eth.Logs
+	var want [][][]byte
+	for i, data := range datas {
+		topics := []eth.Bytes{append([]byte(nil), dig.VerifSigHash(ig)...)}
+		for k := 0; k < nidx; k++ {
+			topics = append(topics, make([]byte, 32))
+		}
+		logs = append(logs, eth.Log{Idx: eth.Uint64(i), Address: make([]byte, 20), Topics: topics, Data: abi.FreshInput(data)})
+		want = append(want, abi.ExpectedRows(d.Root, vals[i], d.NCols)...)
+	}
+	blocks := make([]eth.Block, 1)
+	blocks[0].Txs = make(eth.Txs, 1)
+	blocks[0].Txs[0].Logs = logs
+	conn := &abi.RecConn{}
+	var ierr error
+	if p, pm := lib.Catch(func() { _, ierr = ig.Insert(context.Background(), &sync.Mutex{}, conn, blocks) }); p {
+		return "Integration.Insert panicked: " + pm
+	}
+	if ierr != nil {
+		return "Integration.Insert failed: " + ierr.Error()
+	}
+	if len(conn.Rows) != len(want) {
+		return fmt.Sprintf("Integration.Insert copied %d rows, %d expected", len(conn.Rows), len(want))
+	}
+	// declared kind of each column, in column order
+	var kinds []string
+	var walk func(t *abi.Ty)
+	walk = func(t *abi.Ty) {
+		for _, c := range t.Comps {
+			walk(c)
+		}
+		if t.Sel {
+			kinds = append(kinds, t.EKind)
+		}
+	}
+	for _, t := range d.Ins {
+		if !t.Indexed {
+			walk(t)
+		}
+	}
+	for i := range want {
+		if len(conn.Rows[i]) != len(want[i]) {
+			return fmt.Sprintf("Integration.Insert row %d has %d cells, %d expected", i, len(conn.Rows[i]), len(want[i]))
+		}
+		for j := range want[i] {
+			if j >= len(kinds) || (kinds[j] != "bytes" && kinds[j] != "bytesN" && kinds[j] != "string" && kinds[j] != "function") {
+				continue // integer / address / bool typing is C11's subject
+			}
+			var got []byte
+			switch v := conn.Rows[i][j].(type) {
+			case []byte:
+				got = v
+			case string:
+				got = []byte(v)
+			default:
+				continue
+			}
+			if !bytes.Equal(got, want[i][j]) {
+				return fmt.Sprintf("Integration.Insert row %d column %d holds %x, encoded %x", i, j, got, want[i][j])
+			}
+		}
+	}
+	return ""
+}
 
 func genScan(g *abi.Gen, out *lib.Out, d *abi.Decl, nvals int, kind string) {
 	var vals []*abi.Val
@@ -173,7 +257,7 @@ func genScan(g *abi.Gen, out *lib.Out, d *abi.Decl, nvals int, kind string) {
 func runC09(cfg lib.Cfg) error {
 	per := 36
 	if cfg.Thorough() {
-		per = 600
+		per = 40
 	}
 	out := lib.NewOut("C09", cfg.Out, c09Header, "run", per)
 	out.Rule = "decl: the declaration has an array suffix, a tuple or a bytes/bytesN/string leaf; scan: at least one selected leaf and at least one array or dynamic member, decoded by a reused Result"
@@ -183,7 +267,7 @@ func runC09(cfg lib.Cfg) error {
 	r := lib.NewRNG(cfg.Seed)
 	nDecl, nScan := 250, 260
 	if cfg.Thorough() {
-		nDecl, nScan, maxData = 4000, 5000, 4000
+		nDecl, nScan, maxData = 4000, 4000, 2500
 	}
 	for i, ins := range corpus() {
 		d, err := abi.NewDecl(fmt.Sprintf("Corpus%d", i), ins)
